@@ -1,0 +1,9 @@
+//go:build verif
+
+package context
+
+// VerifFunctions exposes the built-in function table of a linter context to the
+// verification harness (read-only use).
+func (c *Context) VerifFunctions() Functions {
+	return c.functions
+}
